@@ -238,48 +238,54 @@ func ruleSTLMetadataWiring(p *Prog, l *Ledger, tier string) {
 	if rd == nil || wr == nil {
 		return
 	}
-	// reader: Metadata.F ← gsiBlock.x
-	rmap := map[string]string{}
+	// reader: gsiBlock.x → Metadata.F ; writer: gsiBlock.x ← Metadata.F  (both keyed by the GSI field)
+	rByX := map[string]string{}
 	for f, vals := range fieldStores(rd.Blocks, "Metadata") {
 		for _, v := range vals {
 			s := strset{}
 			traceField(v, "gsiBlock", map[ssa.Value]bool{}, s)
 			if len(s) == 0 {
-				// &g.creationDate: the address of the field
-				if fa, ok := v.(*ssa.FieldAddr); ok {
+				if fa, ok := v.(*ssa.FieldAddr); ok { // &g.creationDate
 					if t, fn := fieldOfAddr(fa); t == "gsiBlock" {
 						s.add(fn)
 					}
 				}
 			}
 			if x, ok := oneOf(s); ok {
-				rmap[f] = x
+				rByX[x] = f
 			}
 		}
 	}
-	// writer: gsiBlock.x ← Metadata.F
-	wmap := map[string]string{}
+	wByX := map[string]strset{}
 	for x, vals := range fieldStores(wr.Blocks, "gsiBlock") {
 		for _, v := range vals {
 			s := strset{}
 			traceField(v, "Metadata", map[ssa.Value]bool{}, s)
 			if f, ok := oneOf(s); ok {
-				wmap[f] = x
+				if wByX[x] == nil {
+					wByX[x] = strset{}
+				}
+				wByX[x].add(f)
 			}
 		}
 	}
 	n := 0
-	for _, f := range sortedKeysOf(rmap) {
-		wx, ok := wmap[f]
+	var xs []string
+	for x := range wByX {
+		xs = append(xs, x)
+	}
+	sort.Strings(xs)
+	for _, x := range xs {
+		rf, ok := rByX[x]
 		if !ok {
 			continue
 		}
 		n++
-		key := rule + "|" + f
-		if wx == rmap[f] {
-			l.Prove(rule, "", key, "", fmt.Sprintf("Metadata.%s ↔ gsiBlock.%s in both directions", f, wx))
+		key := rule + "|" + x
+		if wf, one := oneOf(wByX[x]); one && wf == rf {
+			l.Prove(rule, "", key, "", fmt.Sprintf("gsiBlock.%s ↔ Metadata.%s in both directions", x, rf))
 		} else {
-			l.Fail(rule, "", key, "", fmt.Sprintf("Metadata.%s is read from gsiBlock.%s but written to gsiBlock.%s", f, rmap[f], wx))
+			l.Fail(rule, "", key, "", fmt.Sprintf("gsiBlock.%s is read into Metadata.%s but written from Metadata.%v", x, rf, wByX[x].sorted()))
 		}
 	}
 	l.Min(rule, n, 15)
